@@ -161,3 +161,195 @@ theorem emsaPkcs1v15_shape (h : RsaHash) (digest : Bytes) (k : Nat) (em : Bytes)
 
 end Kit.CryptoGlue
 
+
+namespace Kit.Crypto
+open Kit
+
+theorem rsa_dp_ep (key : RsaKey) (m : Nat) (hm : m < key.n) :
+    modPow (modPow m key.e key.n) key.d key.n = m := by
+  rw [modPow_eq, modPow_eq, ← Nat.pow_mod, ← Nat.pow_mul, Nat.mul_comm, Nat.pow_mul]
+  exact key.inv m hm
+
+theorem takeWhile_append_stop {α : Type} (p : α → Bool) :
+    ∀ (l1 : List α) (a : α) (l2 : List α), (∀ x ∈ l1, p x = true) → p a = false →
+      (l1 ++ a :: l2).takeWhile p = l1
+  | [], a, l2, _, ha => by simp [ha]
+  | x :: l1, a, l2, h, ha => by
+    have hx := h x (List.mem_cons_self)
+    have ih := takeWhile_append_stop p l1 a l2 (fun y hy => h y (List.mem_cons_of_mem _ hy)) ha
+    simp [hx, ih]
+
+/-- RSAES-PKCS1-v1_5: decryption inverts encryption (RFC 8017 §7.2), for every key satisfying the
+key equation and every admissible padding string. -/
+theorem rsaDecryptPkcs1v15_encrypt (key : RsaKey) (msg ps ct : Bytes)
+    (h : rsaEncryptPkcs1v15 key.n key.e msg ps = some ct) :
+    rsaDecryptPkcs1v15 key.n key.d ct = some msg := by
+  unfold rsaEncryptPkcs1v15 at h
+  simp only [key.hk] at h
+  by_cases hbad : msg.length + 11 > key.k ∨ ps.length ≠ key.k - msg.length - 3 ∨ ps.any (· == 0) = true
+  · rw [if_pos hbad] at h; cases h
+  · rw [if_neg hbad] at h
+    injection h with h
+    have hlen : msg.length + 11 ≤ key.k := by omega
+    have hps : ps.length = key.k - msg.length - 3 := by
+      cases Nat.decEq ps.length (key.k - msg.length - 3) with
+      | isTrue h => exact h
+      | isFalse hc => exact absurd (Or.inr (Or.inl hc)) hbad
+    have hnz : ∀ x ∈ ps, (x != 0) = true := by
+      intro x hx
+      have : ¬ ps.any (· == 0) = true := fun hc => hbad (Or.inr (Or.inr hc))
+      simp only [List.any_eq_true, not_exists, not_and] at this
+      have := this x hx
+      simpa [bne_iff_ne] using this
+    -- the encoded message
+    have hemlen : ([0x00, 0x02] ++ ps ++ [0x00] ++ msg : Bytes).length = key.k := by
+      simp [hps]; omega
+    have hmlt : os2ip ([0x00, 0x02] ++ ps ++ [0x00] ++ msg) < key.n := by
+      have hc : ([0x00, 0x02] ++ ps ++ [0x00] ++ msg : Bytes) = 0 :: (0x02 :: (ps ++ [0x00] ++ msg)) := by simp
+      rw [hc, os2ip_cons_zero]
+      have hr : (0x02 :: (ps ++ [0x00] ++ msg) : Bytes).length = key.k - 1 := by
+        simp [hps]; omega
+      have := os2ip_lt (0x02 :: (ps ++ [0x00] ++ msg))
+      rw [hr] at this
+      exact Nat.lt_of_lt_of_le this key.hlo
+    have hclt : modPow (os2ip ([0x00, 0x02] ++ ps ++ [0x00] ++ msg)) key.e key.n < key.n := by
+      rw [modPow_eq]; exact Nat.mod_lt _ key.npos
+    have hos : os2ip ct = modPow (os2ip ([0x00, 0x02] ++ ps ++ [0x00] ++ msg)) key.e key.n := by
+      rw [← h, os2ip_i2osp, Nat.mod_eq_of_lt (Nat.lt_trans hclt key.hhi)]
+    have hctl : ct.length = key.k := by rw [← h]; exact i2osp_length _ _
+    unfold rsaDecryptPkcs1v15
+    simp only [key.hk]
+    rw [if_neg (by rw [hos]; omega), hos, rsa_dp_ep key _ hmlt, ← hemlen, i2osp_os2ip]
+    have hc : ([0x00, 0x02] ++ ps ++ [0x00] ++ msg : Bytes) = 0x00 :: 0x02 :: (ps ++ 0x00 :: msg) := by simp
+    rw [hc]
+    simp only
+    have htw : (ps ++ 0x00 :: msg).takeWhile (· != 0) = ps :=
+      takeWhile_append_stop _ ps 0 msg hnz (by decide)
+    rw [htw, if_neg (by simp; omega)]
+    simp
+
+end Kit.Crypto
+
+namespace Kit.Crypto
+open Kit
+
+theorem be32Bytes_length (x : UInt32) : (be32Bytes x).length = 4 := rfl
+theorem be64Bytes_length (x : UInt64) : (be64Bytes x).length = 8 := rfl
+
+theorem sha1_length (m : Bytes) : (Kit.Crypto.sha1 m).length = 20 := by
+  simp [Kit.Crypto.sha1, Sha1.digest, be32Bytes_length]
+theorem sha256_length (m : Bytes) : (Kit.Crypto.sha256 m).length = 32 := by
+  simp [Kit.Crypto.sha256, Sha256.digest, be32Bytes_length]
+theorem sha512_length (m : Bytes) : (Kit.Crypto.sha512 m).length = 64 := by
+  simp [Kit.Crypto.sha512, Sha512.digestWith, be64Bytes_length]
+theorem sha384_length (m : Bytes) : (Kit.Crypto.sha384 m).length = 48 := by
+  simp [Kit.Crypto.sha384, Sha512.digestWith, be64Bytes_length]
+
+/-- Every hash returns `size` octets. -/
+theorem RsaHash.hash_length (h : RsaHash) (m : Bytes) : (h.hash m).length = h.size := by
+  cases h
+  · exact sha1_length m
+  · exact sha256_length m
+  · exact sha384_length m
+  · exact sha512_length m
+
+theorem RsaHash.size_pos (h : RsaHash) : 0 < h.size := by cases h <;> decide
+
+theorem flatten_map_length {α : Type} (f : α → Bytes) (c : Nat) (hf : ∀ a, (f a).length = c) :
+    ∀ l : List α, ((l.map f).flatten).length = l.length * c
+  | [] => by simp
+  | a :: l => by
+    simp only [List.map_cons, List.flatten_cons, List.length_append, List.length_cons, hf,
+      flatten_map_length f c hf l]
+    rw [Nat.succ_mul]; omega
+
+theorem mgf1_length (h : RsaHash) (seed : Bytes) (len : Nat) : (mgf1 h seed len).length = len := by
+  unfold mgf1
+  simp only [List.length_take]
+  rw [flatten_map_length _ h.size (fun c => h.hash_length _), List.length_range]
+  have hp := h.size_pos
+  have : len ≤ (len + h.size - 1) / h.size * h.size := by
+    have h1 := Nat.div_add_mod (len + h.size - 1) h.size
+    have h2 := Nat.mod_lt (len + h.size - 1) hp
+    have h3 : (len + h.size - 1) / h.size * h.size = h.size * ((len + h.size - 1) / h.size) := Nat.mul_comm _ _
+    omega
+  omega
+
+theorem xorB_length (a b : Bytes) : (xorB a b).length = min a.length b.length := by
+  simp [xorB]
+
+theorem xorB_cancel : ∀ (a m : Bytes), a.length = m.length → xorB (xorB a m) m = a
+  | [], [], _ => rfl
+  | x :: a, y :: m, h => by
+    have ih := xorB_cancel a m (by simpa using h)
+    simp only [xorB, List.zipWith_cons_cons] at ih ⊢
+    rw [ih, UInt8.xor_assoc, UInt8.xor_self, UInt8.xor_zero]
+  | [], _ :: _, h => by simp at h
+  | _ :: _, [], h => by simp at h
+
+/-- RSAES-OAEP: decryption inverts encryption (RFC 8017 §7.1), for every key satisfying the key
+equation, every hash, label and seed. -/
+theorem rsaDecryptOaep_encrypt (key : RsaKey) (h : RsaHash) (label msg seed ct : Bytes)
+    (he : rsaEncryptOaep key.n key.e h label msg seed = some ct) :
+    rsaDecryptOaep key.n key.d h label ct = some msg := by
+  unfold rsaEncryptOaep at he
+  simp only [key.hk] at he
+  by_cases hbad : msg.length + 2 * h.size + 2 > key.k ∨ seed.length ≠ h.size
+  · rw [if_pos hbad] at he; cases he
+  · rw [if_neg hbad] at he
+    injection he with he
+    have hk : msg.length + 2 * h.size + 2 ≤ key.k := by omega
+    have hseed : seed.length = h.size := by omega
+    -- names for the pieces
+    generalize hdb : h.hash label ++ List.replicate (key.k - msg.length - 2 * h.size - 2) 0 ++ [0x01] ++ msg = db at he
+    have hdbl : db.length = key.k - h.size - 1 := by
+      rw [← hdb]; simp [h.hash_length]; omega
+    generalize hmdb : xorB db (mgf1 h seed (key.k - h.size - 1)) = maskedDB at he
+    have hmdbl : maskedDB.length = key.k - h.size - 1 := by
+      rw [← hmdb, xorB_length, mgf1_length, hdbl]; omega
+    generalize hms : xorB seed (mgf1 h maskedDB h.size) = maskedSeed at he
+    have hmsl : maskedSeed.length = h.size := by
+      rw [← hms, xorB_length, mgf1_length, hseed]; omega
+    have hemlen : ([0x00] ++ maskedSeed ++ maskedDB : Bytes).length = key.k := by
+      simp [hmsl, hmdbl]; omega
+    have hmlt : os2ip ([0x00] ++ maskedSeed ++ maskedDB) < key.n := by
+      have hc : ([0x00] ++ maskedSeed ++ maskedDB : Bytes) = 0 :: (maskedSeed ++ maskedDB) := by simp
+      rw [hc, os2ip_cons_zero]
+      have hr : (maskedSeed ++ maskedDB).length = key.k - 1 := by simp [hmsl, hmdbl]; omega
+      have := os2ip_lt (maskedSeed ++ maskedDB)
+      rw [hr] at this
+      exact Nat.lt_of_lt_of_le this key.hlo
+    have hclt : modPow (os2ip ([0x00] ++ maskedSeed ++ maskedDB)) key.e key.n < key.n := by
+      rw [modPow_eq]; exact Nat.mod_lt _ key.npos
+    have hos : os2ip ct = modPow (os2ip ([0x00] ++ maskedSeed ++ maskedDB)) key.e key.n := by
+      rw [← he, os2ip_i2osp, Nat.mod_eq_of_lt (Nat.lt_trans hclt key.hhi)]
+    have hctl : ct.length = key.k := by rw [← he]; exact i2osp_length _ _
+    unfold rsaDecryptOaep
+    simp only [key.hk]
+    rw [if_neg (by rw [hos]; omega), hos, rsa_dp_ep key _ hmlt, ← hemlen, i2osp_os2ip]
+    have hc : ([0x00] ++ maskedSeed ++ maskedDB : Bytes) = 0x00 :: (maskedSeed ++ maskedDB) := by simp
+    rw [hc]
+    simp only
+    rw [List.take_left' hmsl, List.drop_left' hmsl]
+    have hseed' : xorB maskedSeed (mgf1 h maskedDB h.size) = seed := by
+      rw [← hms]; exact xorB_cancel _ _ (by rw [mgf1_length, hseed])
+    have hemlen' : (0x00 :: (maskedSeed ++ maskedDB) : Bytes).length = key.k := by rw [← hc]; exact hemlen
+    rw [hseed', hemlen']
+    have hdb' : xorB maskedDB (mgf1 h seed (key.k - h.size - 1)) = db := by
+      rw [← hmdb]; exact xorB_cancel _ _ (by rw [mgf1_length, hdbl])
+    rw [hdb', ← hdb]
+    have hl := h.hash_length label
+    have e1 : (h.hash label ++ List.replicate (key.k - msg.length - 2 * h.size - 2) 0 ++ [0x01] ++ msg).take h.size
+        = h.hash label := by
+      rw [List.append_assoc, List.append_assoc]; exact List.take_left' hl
+    have e2 : (h.hash label ++ List.replicate (key.k - msg.length - 2 * h.size - 2) 0 ++ [0x01] ++ msg).drop h.size
+        = List.replicate (key.k - msg.length - 2 * h.size - 2) 0 ++ 0x01 :: msg := by
+      rw [List.append_assoc, List.append_assoc, List.drop_left' hl]; simp
+    rw [e1, e2]
+    have htw : (List.replicate (key.k - msg.length - 2 * h.size - 2) (0 : UInt8) ++ 0x01 :: msg).takeWhile (· == 0)
+        = List.replicate (key.k - msg.length - 2 * h.size - 2) 0 :=
+      takeWhile_append_stop _ _ 1 msg (by intro x hx; simp [List.eq_of_mem_replicate hx]) (by decide)
+    rw [htw, List.length_replicate, List.drop_left' (List.length_replicate ..)]
+    simp
+
+end Kit.Crypto
